@@ -250,7 +250,7 @@ static void sc_thread(void) {
 	if (t1) { (void)p_uthread_join(t1); p_uthread_unref(t1); }
 	if (t2) { if (p_uthread_join(t2) != 42) DAMAGE("exit code lost"); p_uthread_unref(t2); }
 	t3 = p_uthread_create(th_fn, NULL, FALSE, NULL);
-	if (t3) { p_uthread_ref(t3); p_uthread_unref(t3); p_uthread_unref(t3); for (i = 0; i < 2000 && th_ran < 3; i++) usleep(1000); usleep(20000); }
+	if (t3) { void *blk = t3; p_uthread_ref(t3); p_uthread_unref(t3); p_uthread_unref(t3); for (i = 0; i < 20000 && va_is_live(blk); i++) usleep(1000); }     /* the detached thread drops the last reference when it exits */
 	p_uthread_local_free(tkey); tkey = NULL;
 }
 
@@ -356,9 +356,9 @@ static void sc_threads_tls(void) {
 	for (i = 0; i < 2; i++) { t[i] = p_uthread_create(join_fn, k2, TRUE, "joinable"); }
 	for (i = 2; i < 4; i++) { t[i] = p_uthread_create(det_fn, NULL, FALSE, NULL); if (t[i]) want++; }
 	for (i = 0; i < 2; i++) if (t[i]) { p_uthread_ref(t[i]); if (p_uthread_join(t[i]) != -3) DAMAGE("exit code lost"); p_uthread_unref(t[i]); p_uthread_unref(t[i]); }
-	for (i = 2; i < 4; i++) if (t[i]) p_uthread_unref(t[i]);
-	for (i = 0; i < 3000 && det_done < want; i++) usleep(1000);
-	usleep(30000);      /* let the detached threads run their TLS destructors and drop their handle */
+	{ void *blk[4]; for (i = 2; i < 4; i++) { blk[i] = t[i]; if (t[i]) p_uthread_unref(t[i]); }
+	  for (i = 0; i < 3000 && det_done < want; i++) usleep(1000);
+	  for (i = 2; i < 4; i++) { int w; for (w = 0; blk[i] && w < 20000 && va_is_live(blk[i]); w++) usleep(1000); } }      /* wait until the detached threads have run their TLS destructors and dropped their handle */
 	p_uthread_local_free(tkey); tkey = NULL; p_uthread_local_free(k2);
 }
 
